@@ -142,4 +142,5 @@ func vpPerm(n int) []int {
 	return out
 }
 
-var vpEntryNames = [4]string{"a", "bb", "ccc", "dddd"}
+// (two of the names hold multi-byte UTF-8: lengths are byte lengths, not character counts)
+var vpEntryNames = [4]string{"\u00e9", "bb", "c\u00e9c", "d\u65e5dd"}
